@@ -240,7 +240,7 @@ func c17() {
 				return
 			}
 			if !res.Killed {
-				run.Inconclusive(fmt.Sprintf("kill history: the tool never signalled (k=%d): %s", h.k, tail(res.Stderr, 200)))
+				run.SoftInconclusive(fmt.Sprintf("kill history: the tool never signalled (k=%d): %s", h.k, tail(res.Stderr, 200)))
 				return
 			}
 			mu.Lock()
@@ -257,7 +257,7 @@ func c17() {
 				overlap, _ = th.Run(vlib.ToolRun{Argv: argv(target), FakeMode: "emit", Listing: fx.listA})
 			}}, fmt.Sprintf("run 1: disassembler emits %d bytes and blocks; a second run overlaps it; run 1 is then SIGKILLed", h.k))
 			if res == nil || !res.Killed || overlap == nil {
-				run.Inconclusive("overlap history: the tool never signalled")
+				run.SoftInconclusive("overlap history: the tool never signalled")
 				return
 			}
 			run.Count("real_kills", 1)
@@ -281,7 +281,7 @@ func c17() {
 			for _, k := range []int{h.k, h.k2} {
 				res := step(vlib.ToolRun{Argv: argv(target), FakeMode: "block", Listing: fx.listA, K: k, KillAfter: true}, fmt.Sprintf("interrupted run: %d bytes then SIGKILL", k))
 				if res == nil || !res.Killed {
-					run.Inconclusive("kill history: the tool never signalled")
+					run.SoftInconclusive("kill history: the tool never signalled")
 					return
 				}
 				run.Count("real_kills", 1)
@@ -306,7 +306,7 @@ func c17() {
 		case "binary-replaced-after-interrupted-run":
 			res := step(vlib.ToolRun{Argv: argv(target), FakeMode: "block", Listing: fx.listA, K: h.k, KillAfter: true}, "run 1: binary A, interrupted")
 			if res == nil || !res.Killed {
-				run.Inconclusive("kill history: the tool never signalled")
+				run.SoftInconclusive("kill history: the tool never signalled")
 				return
 			}
 			copyFile(target, fx.binB)
@@ -329,7 +329,7 @@ func c17() {
 			return
 		}
 		if res.TimedOut {
-			run.Inconclusive("normal run timed out")
+			run.SoftInconclusive("normal run timed out")
 			return
 		}
 		run.Count("histories", 1)
